@@ -364,7 +364,133 @@ def run_config(c, cfg):
     c.nontrivial((sp['name'], mode, cfg['safe'], len(times)))
 
 
+def tree_shapes(n_internal):
+    """every full binary tree with the given number of dividing cells, as nested tuples: () leaf, (left, right) mother"""
+    if n_internal == 0:
+        return [()]
+    out = []
+    for k in range(n_internal):
+        for l in tree_shapes(k):
+            for r in tree_shapes(n_internal - 1 - k):
+                out.append((l, r))
+    return out
+
+
+def check_records(c, item):
+    """Schnitz / Lineage containers on hand-built family trees of every shape: links mutual, sub-lineages are exactly the
+    descendants, generations, truncation keeps rows and links consistent"""
+    from bioscrape.types import Schnitz, Lineage, ExperimentalLineage
+    shape, order = item
+    nodes = []          # (schnitz, depth, parent index, [daughter indices])
+
+    def build(sh, depth, parent):
+        i = len(nodes)
+        t = np.array([depth + 0.0, depth + 0.5, depth + 1.0])
+        sch = Schnitz(t, np.array([[float(i), 1.0], [float(i), 2.0], [float(i), 3.0]]), np.array([1.0, 1.5, 2.0]))
+        nodes.append([sch, depth, parent, []])
+        if sh:
+            a = build(sh[0], depth + 1, i)
+            b = build(sh[1], depth + 1, i)
+            nodes[i][3] = [a, b]
+            sch.py_set_daughters(nodes[a][0], nodes[b][0])
+            nodes[a][0].py_set_parent(sch); nodes[b][0].py_set_parent(sch)
+        return i
+    build(shape, 0, None)
+    n = len(nodes)
+    idx = list(range(n))
+    if order == 'reversed':
+        idx = idx[::-1]
+    elif order == 'bfs':
+        idx = sorted(idx, key=lambda i: (nodes[i][1], i))
+    lin = Lineage() if order != 'experimental' else ExperimentalLineage({'A': 0, 'B': 1})
+    for i in idx:
+        lin.py_add_schnitz(nodes[i][0])
+    ident = {id(nodes[i][0]): i for i in range(n)}
+    case = dict(shape=repr(shape), order=order, records=True)
+    key = 'C19/records/'
+    c.count('states'); c.count('traces')
+
+    def descendants(i):
+        out, todo = [], [i]
+        while todo:
+            j = todo.pop(0)
+            out.append(j)
+            todo += nodes[j][3]
+        return out
+    if lin.py_size() != n:
+        c.violation(key + 'size', 'lineage of %d cells reports size %d' % (n, lin.py_size()), case)
+        return
+    got_order = [ident.get(id(lin.py_get_schnitz(k))) for k in range(n)]
+    if got_order != idx:
+        c.violation(key + 'order', 'cells come back as %s, added as %s' % (got_order, idx), case)
+        return
+    for i in range(n):
+        sch = nodes[i][0]
+        c.count('evaluations'); c.count('transitions')
+        sub = sch.get_sub_lineage() if order != 'experimental' else sch.get_sub_lineage({'A': 0, 'B': 1})
+        members = [ident.get(id(sub.py_get_schnitz(k)), 'outside') for k in range(sub.py_size())]
+        exp = descendants(i)
+        if sorted(map(str, members)) != sorted(map(str, exp)) or len(set(members)) != len(members):
+            c.violation(key + 'sub-lineage', 'sub-lineage of cell %d (tree %s) holds cells %s, its descendants are %s' % (i, shape, members, exp), case)
+            return
+        inside = set(members)
+        for k in range(sub.py_size()):
+            s2 = sub.py_get_schnitz(k)
+            d = s2.py_get_daughters()
+            for x in (d if d is not None else ()):
+                if x is not None and ident.get(id(x)) not in inside:
+                    c.violation(key + 'sub-lineage-links', 'a daughter link of the sub-lineage of cell %d leaves the record' % i, case)
+                    return
+        if order == 'experimental' and sub.py_get_species_index('B') != 1:
+            c.violation(key + 'sub-lineage-species', 'the experimental sub-lineage lost its species dictionary', case)
+            return
+    # generations
+    gens = lin.get_schnitzes_by_generation()
+    got_g = [sorted(ident.get(id(x), -1) for x in g) for g in gens]
+    depth_max = max(nd[1] for nd in nodes)
+    exp_g = [sorted(i for i in range(n) if nodes[i][1] == d) for d in range(depth_max + 1)]
+    c.count('evaluations'); c.count('transitions')
+    if order in ('given', 'bfs', 'experimental') and got_g != exp_g:
+        c.violation(key + 'generations', 'generations %s, expected %s (tree %s)' % (got_g, exp_g, shape), case)
+        return
+    # truncation windows aligned with sample times
+    for (t0, t1) in ((0.0, depth_max + 1.0), (0.5, 1.5), (1.0, 2.5), (1.5, 1.5), (2.0, depth_max + 1.0), (0.0, 0.5)):
+        c.count('evaluations'); c.count('transitions')
+        tl = lin.truncate_lineage(t0, t1)
+        keep = [i for i in idx if not (nodes[i][1] + 1.0 < t0 or nodes[i][1] + 0.0 > t1)]
+        if tl.py_size() != len(keep):
+            c.violation(key + 'truncate-size', 'window [%s, %s] keeps %d cells, %d overlap it' % (t0, t1, tl.py_size(), len(keep)), case)
+            return
+        new = [tl.py_get_schnitz(k) for k in range(tl.py_size())]
+        nid = {id(x): keep[k] for k, x in enumerate(new)}
+        for k, x in enumerate(new):
+            i = keep[k]
+            tt = [t for t in (nodes[i][1] + 0.0, nodes[i][1] + 0.5, nodes[i][1] + 1.0) if t0 <= t <= t1]
+            data = np.asarray(x.py_get_data())
+            if list(np.asarray(x.py_get_time())) != tt or (len(tt) and (list(data[:, 0]) != [float(i)] * len(tt))) or len(np.asarray(x.py_get_volume())) != len(tt):
+                c.violation(key + 'truncate-rows', 'window [%s, %s]: cell %d has times %s, expected %s' % (t0, t1, i, list(np.asarray(x.py_get_time())), tt), case)
+                return
+            par = x.py_get_parent()
+            exp_par = nodes[i][2] if nodes[i][2] in keep else None
+            if (nid.get(id(par)) if par is not None else None) != exp_par:
+                c.violation(key + 'truncate-links', 'window [%s, %s]: parent of cell %d is %s, expected %s' % (t0, t1, i, nid.get(id(par)) if par is not None else None, exp_par), case)
+                return
+            d = x.py_get_daughters()
+            got_d = [nid.get(id(y), 'outside') if y is not None else None for y in (d if d is not None else (None, None))]
+            exp_d = [j if j in keep else None for j in nodes[i][3]] or [None, None]
+            if got_d != exp_d:
+                c.violation(key + 'truncate-links', 'window [%s, %s]: daughters of cell %d are %s, expected %s' % (t0, t1, i, got_d, exp_d), case)
+                return
+            for y in (d if d is not None else ()):
+                if y is not None and y.py_get_parent() is not x:
+                    c.violation(key + 'truncate-links', 'window [%s, %s]: daughter of cell %d does not point back to it' % (t0, t1, i), case)
+                    return
+    c.nontrivial(('records', repr(shape), order))
+
+
 def run(ctx):
+    rec = [(sh, order) for k in range(0, 5 if ctx.quick else 7) for sh in tree_shapes(k) for order in ('given', 'reversed', 'bfs', 'experimental')]
+    pmap(check_records, rec, ctx, nshards=32)
     items = []
     for cfg in splitter_configs(ctx.tier):
         for mother in itertools.product(range(5 if not ctx.quick else 4), repeat=2):
@@ -381,7 +507,7 @@ def run(ctx):
             cfgs.append(dict(spec=sp, times=[0.25 * i for i in range(N + 2)], mode='lineage', safe=False, bound=2,
                              cap=12000 if ctx.quick else 60000))
     pmap(run_config, cfgs, ctx, nshards=len(cfgs))
-    ctx.bounds = dict(splitter_cases=len(items), lineage_configs=len(cfgs), cost_bound=max(c_['bound'] for c_ in cfgs))
+    ctx.bounds = dict(record_trees=len(rec), splitter_cases=len(items), lineage_configs=len(cfgs), cost_bound=max(c_['bound'] for c_ in cfgs))
     ctx.rule = ('E1: (i) PerfectBinomialVolumeSplitter, GeneralVolumeSplitter and LineageVolumeSplitter in every per-species mode combination x '
                 'volume mode x partition noise on mothers from {0..4}^2 x volumes {1, 2.5}: every coin sequence is scripted (cells [0,p) and [p,1) '
                 'of every binom_rnd_f coin and perfect-rounding coin), conservation / duplication / volume split are checked on each and the '
@@ -391,7 +517,7 @@ def run(ctx):
                 'with a repeated rule) through py_SimulateSingleCell (plain and safe interface) and py_SimulateCellLineage: the choice tree of '
                 'the reference (vf/ref/lineage_ssa.py) is explored to the cost bound, every trace replayed, and the real records checked: '
                 'positive volume on every row, daughters start at the mother\'s last time from a valid partition of her last state, mutual '
-                'links, conformance of every row, volume, fate and tree shape. states = distinct (state, grid index) of single cells + '
+                'links, conformance of every row, volume, fate and tree shape. (iii) record containers: every full binary family tree with up to 4 (thorough: 6) dividing cells (up to 13 cells, 7 generations), added to a Lineage / ExperimentalLineage in four orders: size and order, the sub-lineage of every cell is exactly its descendants with no link leaving it, generations, and truncation to six windows keeps exactly the overlapping cells, their rows inside the window and mutual links among them. states = distinct (state, grid index) of single cells + '
                 'distinct tree sizes.')
     ctx.assumptions = ['direct-method mapping as in C05; rules and events without noise terms (their normal variates are not scripted)',
                        'lineage exploration is capped per configuration (the cap is reported in the bounds)']
@@ -399,6 +525,8 @@ def run(ctx):
 
 
 def replay(ctx, case):
+    if case.get('records'):
+        return check_records(ctx, (eval(case['shape']), case['order']))
     if 'mother' in case:
         check_splitter(ctx, (case['cfg'], tuple(case['mother']), case['V'], case['u0']))
     else:
